@@ -28,7 +28,7 @@ def describe(l):
 
 def run(ctx):
     return core.simple_check(
-        ctx, jobs,
+        ctx, jobs, distribution=core.field_distribution(("P ",), ["case", "norm", "mode", "reparse"], numeric=()),
         rule="pattern strings: exhaustive over all texts of length <= 4 (thorough: 6) on the alphabet {a B ! ^ ' $ \\ space ä}, and seeded random "
              "concatenations of ASCII/non-ASCII words, every kind of whitespace, backslashes and markers; each under a CaseMatching x Normalization "
              "setting, through Pattern::parse (+ reparse on a used object), Pattern::new with each kind, and the escaped form of the text itself "
